@@ -37,7 +37,7 @@ def shards(tier):
 
 def floors(tier):
     return {"strings": 5000, "with_legacy": 3000, "legacy_reached": 2000, "no_legacy": 500, "rejected_without_flag": 1500,
-            "set:legacy_branch_ring_forms": 21, "set:expl_atoms": 40, "with_empty_fragment": 300, "vocabulary_built_on_library_alphabet": 1000}
+            "set:legacy_branch_ring_forms": 21, "set:expl_atoms": 40, "with_empty_fragment": 300, "vocabulary_built_on_library_alphabet": 1000, "with_long_padding_run": 400}
 
 
 def all_legacy(rng):
@@ -74,6 +74,10 @@ def run(ctx):
                 toks += [rng.choice(['[S]', '[P]', '[C]']), all_legacy(rng)]
         if rng.random() < 0.15:
             toks.insert(rng.randrange(len(toks) + 1), ".")
+        if it % 40 == 7:
+            # fixed-width archives: a long run of padding somewhere inside the string
+            toks.insert(rng.randrange(len(toks) + 1), "[nop]" * rng.choice([300, 1024, 2100, 5000]))
+            ctx.count("with_long_padding_run")
         if rng.random() < 0.06:
             toks.insert(rng.randrange(len(toks) + 1), "..")      # an empty fragment: legal decoder input
             ctx.count("with_empty_fragment")
